@@ -16,6 +16,8 @@ AppendDemands(e) ==
   <<
     <<"C16.append",    e.out = e.prefix \o e.nilout>>,
     <<"C16.untouched", e.preafter = e.prefix>>,
+    <<"C16.chain",     e.chain = e.nilout \o e.nilout \o e.nilout>>,     \* each result used as the next call's buffer
+    <<"C16.reuse",     e.reuseout = e.reusepre \o e.nilout>>,             \* the returned buffer truncated, refilled, used again
     <<"C16.noerr",     e.ok>>
   >>
 
